@@ -1,5 +1,6 @@
 import Pyxv.Model.Controls
 import Pyxv.Model.Warnings
+import Pyxv.Model.Spell
 /-!
 # PreRules: two catalogue rules of `workbook_to_json` with the *text* of their diagnosis (C17)
 
@@ -94,5 +95,9 @@ def rangeCell (raw : Str) : Outcome :=
     match extras ps with
     | [] => numbersCheck ps
     | e :: es => .reject (extrasMsg (sortStr (e :: es)))
+
+/-- the cell as the row loop sees it: `clean_text_values(strip_whitespace=True)` of the survey sheet (xls2json.py:482,
+    model `Spell.cleanText`, tied by C13) runs before `parameters_generic.parse` -/
+def rangeCellOfSheet (raw : Str) : Outcome := rangeCell (Spell.cleanText true raw)
 
 end Pyxv.PreRules
